@@ -2440,6 +2440,23 @@ void ChangeSymbol(PSymbolEntry pEntry, LargeInt Value) {
 }
 
 /*!------------------------------------------------------------------------
+ * \fn     SkipSymbolDefinition(const tStrComp *pName)
+ * \brief  a symbol definition is postponed to a later pass: treat the temporary
+ *         symbol bookkeeping as if it had taken place
+ * \param  pName unexpanded symbol name
+ * ------------------------------------------------------------------------ */
+
+void SkipSymbolDefinition(tStrComp const* pName) {
+    String  ExtName;
+    LongInt DestHandle;
+
+    if (ExpandStrSymbol(ExtName, sizeof(ExtName), pName)
+        && GetSymSection(ExtName, &DestHandle, pName)) {
+        (void)ChkTmp(ExtName, e_symbol_source_define);
+    }
+}
+
+/*!------------------------------------------------------------------------
  * \fn     CreateSymbolEntry(const tStrComp *pName, LongInt *pDestHandle, tSymbolFlags symbol_flags)
  * \brief  create empty container for symbol tabl eentry
  * \param  pName unexpanded symbol name
